@@ -35,6 +35,19 @@ impl Expectation {
     }
 }
 
+/// Counts from here on stand for 2^32 + (n - HUGE): repeat counts beyond what 32 bits hold. The model
+/// keeps them as they are (far beyond any number of calls a run makes, like the real ones).
+pub const HUGE: u32 = 0xF000_0000;
+
+/// the count handed to the builder for a count of the clause model
+pub fn real_count(n: u32) -> usize {
+    if n >= HUGE {
+        (1usize << 32) + (n - HUGE) as usize
+    } else {
+        n as usize
+    }
+}
+
 /// the count a quantifier contributes to the chain
 pub fn quant_count(q: Quant) -> u32 {
     match q {
